@@ -43,6 +43,8 @@ type neoCodec interface {
 	stateRoot(idx uint32, root []byte, inv, ver []byte) []byte
 	parseStateRoot(raw []byte, magic uint32) (idx uint32, inv, ver, msg []byte, err error)
 	proof(ccmc []byte, key, value []byte) (proof []byte, root []byte)
+	proofNodes(ccmc []byte, key, value []byte) (skey []byte, nodes [][]byte, root []byte) // single-entry trie
+	proof2(ccmc []byte, k1, v1, k2, v2 []byte) (skey []byte, nodes [][]byte, root []byte) // two-entry trie, proof of the first
 	tracked(v e1.View, chainID uint64) (uint32, hash160, bool)
 }
 
